@@ -401,6 +401,10 @@ func pick(kind int, a, b string) string {
 func main() {
 	w := vc.NewWriter(os.Args[1])
 	defer w.Close()
+	if len(os.Args) > 2 && (os.Args[2] == "stress_pattern" || os.Args[2] == "stress_service") {
+		stressPart(w, vc.NewRand(vc.Seed()), os.Args[2] == "stress_service")
+		return
+	}
 	root := os.Getenv("VERIF_ROOT")
 	fixed := len(os.Args) > 2 && os.Args[2] == "wmutex"
 	routing.VerifYieldHook = hook
